@@ -1181,9 +1181,12 @@ class C01(Check):
         'modelled not verified: networkx 3.6.1 generate_graphml / read_graphml / node_link_data / node_link_graph / '
         'convert_node_labels_to_integers / to_dict_of_dicts / networkx_query eq-search; xml.etree and lxml serialisation and '
         'parsing of text items (escaping, character references, end-of-line handling), str.replace; json.dumps/loads '
-        '(identity on values); tempfile / open() text files; Python str(int), str(bool)',
+        '(Base/Json.v: jparse (jprint v) = Some v proved there, tied here on every real JSON text); tempfile / open() text files; Python str(int), str(bool)',
     ]
     assumptions = [
+        'API-built models (slices, sites, ARM, ADM) lie in the theorems\' domain: established by evaluating graph_wf && '
+        'graph_ids_ok && graph_json_ok && all_strings && graph_json_text_ok inside Coq on every generated snapshot (check_api), '
+        'not by a proof over the topology API',
         'property values are str / int / bool (what the library stores; floats, None and lists are outside the modelled domain)',
         'strings are XML-legal text; every node and edge carries a non-empty string Class; nodes carry a non-empty NodeID '
         '(without these the library itself refuses to serialize or import)',
